@@ -931,6 +931,38 @@ class World:
             idx = [walk_order.index(p) for p in order if p in walk_order]
             if idx != sorted(idx):
                 self.vio('sites-not-in-visit-order', {'sites': repr(order)[:200]}, strategy=name)
+        # an empty region of this program holds no site: listing within it gives nothing, aiming at it is rejected
+        if op.get('within') is not None and op['within'] % 4 == 1:
+            from fpy2.strategies import BlockCursor, TransformError
+            stmts = list(M.walk(f.ast))
+            spx, _ = stmts[op['within'] % len(stmts)]
+            try:
+                empty = BlockCursor(f.ast, to_repo_block(spx[:-1]), range(spx[-1], spx[-1]))
+            except Exception:
+                empty = None          # the library does not make empty regions: nothing to check
+            if empty is not None:
+                self.stats.count('ops', 'list-within-empty-region')
+                try:
+                    es, er = list_sites(name, f, op.get('params') or {}, empty)
+                except TransformError:
+                    es, er = [], []
+                except Exception as e:
+                    self.stats.count('probes', f'listing-raised:{name}:{type(e).__name__}')
+                    es, er = [], []
+                if es or er:
+                    self.vio('within-not-the-sites-at-or-beneath', {'region': 'empty, at ' + repr(spx), 'expected': [],
+                                                                    'got': [repr(cursor_pos(x)) for x in es][:6], 'refusals': len(er)}, strategy=name)
+                if sites:
+                    try:
+                        strategy_call(name, f, empty, op.get('params') or {}, None)
+                    except TransformError:
+                        pass
+                    except (ValueError, TypeError):
+                        pass
+                    except Exception as e:
+                        self.stats.count('probes', f'aim-at-empty-region-raised:{type(e).__name__}')
+                    else:
+                        self.vio('bad-where-accepted', {'why': 'empty region', 'k': len(sites)}, strategy=name, where_kind='empty-region')
         # `within` narrows the listing to what lies at or beneath it
         if op.get('within') is not None and self.cursors:
             # two times out of three a cursor of this very program when there is one (the exact rule below)
